@@ -261,9 +261,16 @@ func (f *DefaultFanController) UpdateFanSpeed() error {
 }
 
 func (f *DefaultFanController) RunInitializationSequence() (err error) {
+	// unless initialization may run in parallel, only one fan at a time is
+	// analyzed: this covers both the pwm map sweep and the RPM curve measurement
+	if !configuration.CurrentConfig.RunFanInitializationInParallel {
+		InitializationSequenceMutex.Lock()
+		defer InitializationSequenceMutex.Unlock()
+	}
+
 	fan := f.fan
 
-	err1 := f.computePwmMap()
+	err1 := f.computePwmMapUnguarded()
 	if err1 != nil {
 		ui.Warning("Error computing PWM map: %v", err1)
 	}
@@ -573,6 +580,12 @@ func (f *DefaultFanController) computePwmMap() (err error) {
 		defer InitializationSequenceMutex.Unlock()
 	}
 
+	return f.computePwmMapUnguarded()
+}
+
+// computePwmMapUnguarded is computePwmMap without taking the InitializationSequenceMutex,
+// for callers that already hold it
+func (f *DefaultFanController) computePwmMapUnguarded() (err error) {
 	var configOverride *map[int]int
 
 	switch f := f.fan.(type) {
